@@ -261,6 +261,27 @@ class Frame:
         is_gen = any(isinstance(x, (ast.Yield, ast.YieldFrom)) for x in _walk_own(fn))
         straight = is_gen and not any(isinstance(y, (ast.Yield, ast.YieldFrom)) for x in _walk_own(fn)
                                       if isinstance(x, (ast.For, ast.AsyncFor, ast.While)) for y in ast.walk(x))
+        if is_gen:
+            # a generator function that is one loop around one ``yield`` — ``for x in xs: yield f(x)`` (possibly under one ``if``) — is
+            # the generator expression ``(f(x) for x in xs)`` with a name: evaluated as that (over the whole collection, like the
+            # comprehension the caller could have written in place)
+            body_ = [st for st in fn.body if not (isinstance(st, ast.Expr) and isinstance(st.value, ast.Constant))]
+            if len(body_) == 1 and isinstance(body_[0], ast.For) and not body_[0].orelse and len(body_[0].body) == 1:
+                inner, ifs = body_[0].body[0], []
+                if isinstance(inner, ast.If) and not inner.orelse and len(inner.body) == 1:
+                    ifs, inner = [inner.test], inner.body[0]
+                if isinstance(inner, ast.Expr) and isinstance(inner.value, ast.Yield) and inner.value.value is not None \
+                        and not any(isinstance(y, (ast.Yield, ast.YieldFrom)) for y in ast.walk(inner.value.value)):
+                    gen = ast.GeneratorExp(elt=inner.value.value, generators=[ast.comprehension(target=body_[0].target, iter=body_[0].iter, ifs=ifs, is_async=0)])
+                    ast.copy_location(gen, body_[0])
+                    ast.fix_missing_locations(gen)
+                    out_g = []
+                    for q, t in self.expr(gen, callee):
+                        if q.status == "live":
+                            q.status = "ret"
+                            q.ret = t
+                        out_g.append(q)
+                    return dedupe(out_g)
         paths = self.block(fn.body, [callee])
         out = []
         for q in paths:
@@ -484,7 +505,32 @@ class Frame:
         if isinstance(st, (ast.Pass, ast.Global, ast.Nonlocal)):
             return [p]
         if isinstance(st, (ast.FunctionDef, ast.AsyncFunctionDef)):
-            p.env[st.name] = Fn("func", (self.cls, self.selfterm, self.selfattrs, self.module), st, frame=dict(p.env))
+            fterm = Fn("func", (self.cls, self.selfterm, self.selfattrs, self.module), st, frame=dict(p.env))
+            p.env[st.name] = fterm
+            # decorators of the library's own that hand the function back after marking / registering it (``@_wrapper``, a local
+            # ``@install``): applied, innermost first; what they return is bound to the name
+            decos = [d for d in reversed(st.decorator_list)]
+            if decos and all(self._own_plain_decorator(d, p) for d in decos):
+                cur = [(p, fterm)]
+                for d in decos:
+                    nxt = []
+                    for q, ft in cur:
+                        for q2, dt in self.expr(d, q):
+                            if q2.status != "live" or not isinstance(dt, Fn):
+                                nxt.append((q2, ft))
+                                continue
+                            node_ = ast.Call(func=d, args=[ast.Name(id=st.name, ctx=ast.Load())], keywords=[])
+                            ast.copy_location(node_, st)
+                            ast.fix_missing_locations(node_)
+                            for q3, rt in self.call_fn(dt, [ft], {}, q2, node_):
+                                nxt.append((q3, rt if isinstance(rt, Fn) else ft))
+                    cur = nxt
+                out_ = []
+                for q, ft in cur:
+                    if q.status == "live":
+                        q.env[st.name] = ft
+                    out_.append(q)
+                return out_
             return [p]
         if isinstance(st, ast.ClassDef):
             p.env[st.name] = Opaque(f"class {st.name}")
@@ -629,6 +675,17 @@ class Frame:
                 out.append(r)
         return out
 
+    def _own_plain_decorator(self, d: ast.expr, p: Path) -> bool:
+        """A decorator that is a private module-level function of the repository or a function defined in the enclosing one
+        (possibly called with arguments: ``@rerouted(cls)``)."""
+        f0 = d.func if isinstance(d, ast.Call) else d
+        if isinstance(f0, ast.Name):
+            if isinstance(p.env.get(f0.id), Fn):
+                return True
+            r = self.repo.resolve_name(self.module, f0.id)
+            return bool(r and r[0] == "func" and (r[1].name.startswith("_") or r[1].module.name.split(".")[-1].startswith("_")))
+        return False
+
     def augmented(self, st: ast.AugAssign, cur: Term, t: Term, p: Path) -> Term:
         """``x op= v`` binds x to ``x op v``; for lists whose contents are known, ``+=`` is the concatenation."""
         if isinstance(st.op, ast.Add):
@@ -671,6 +728,7 @@ class Frame:
         cm_name, ex_name = f"cm$x{n_}", f"exc$x{n_}"
         for q in paths:
             q.env[cm_name] = cm_term
+        self.ctx.__dict__.setdefault("cm_keys", set()).add(cm_term.key())      # (its __exit__ is looked through, public class or not)
         call = ast.Call(func=ast.Attribute(value=ast.Name(id=cm_name, ctx=ast.Load()), attr="__exit__", ctx=ast.Load()),
                         args=[ast.Call(func=ast.Name(id="type", ctx=ast.Load()), args=[ast.Name(id=ex_name, ctx=ast.Load())], keywords=[]),
                               ast.Name(id=ex_name, ctx=ast.Load()), ast.Constant(value=None)], keywords=[])
@@ -848,6 +906,8 @@ class Frame:
                 res = a.v == b.v and type(a.v) is type(b.v)
             elif (self._is_object(a) and isinstance(b, Const)) or (self._is_object(b) and isinstance(a, Const)):
                 res = False
+            elif self._enum_member(a) and self._enum_member(b):
+                res = self._enum_member(a) == self._enum_member(b)        # two members of an enumeration: the same one or not
             elif self._private_sentinel(a) and self._private_sentinel(a) == self._private_sentinel(b):
                 res = True          # the marker against itself
             elif self._private_sentinel(a) != self._private_sentinel(b) and (self._private_sentinel(a) or self._private_sentinel(b)):
@@ -888,6 +948,21 @@ class Frame:
                 return bool(t.v) if not isinstance(t.v, _Sentinel) else True
             if isinstance(t, New):
                 return True
+        return None
+
+    @staticmethod
+    def _is_enum_class(ci) -> bool:
+        return any(b.split(".")[-1] in ("Enum", "IntEnum", "StrEnum", "Flag") for b in ci.external_bases())
+
+    def _enum_member(self, t) -> Optional[str]:
+        """Text of the term when it is a member of an enumeration class of the repository (``_Source.PROVIDED``), else None."""
+        if isinstance(t, Sym) and t.head == "classattr" and t.text and not t.args:
+            ci = self.repo.classes.get(t.text.rpartition(".")[0])
+            if ci is not None and self._is_enum_class(ci):
+                member = t.text.rpartition(".")[2]
+                if any(isinstance(st, (ast.Assign, ast.AnnAssign)) and any(isinstance(tg, ast.Name) and tg.id == member for tg in (st.targets if isinstance(st, ast.Assign) else [st.target]))
+                       for st in ci.node.body):
+                    return t.text
         return None
 
     def _private_sentinel(self, t) -> Optional[str]:
@@ -942,6 +1017,20 @@ class Frame:
             return None
         if isinstance(e, ast.Constant):
             return Const(e.value)
+        if isinstance(e, ast.Attribute) and isinstance(e.value, ast.Name) and isinstance(p.env.get(e.value.id), Sym) and p.env[e.value.id].head.startswith("new:"):
+            # a field of a plain object built by the analysed code: what its constructor was given (or what was stored since)
+            t_ = p.env[e.value.id]
+            hk = f"{t_.key()}.{e.attr}"
+            if hk in p.heap:
+                return p.heap[hk]
+            ci_ = self.plain_class(t_) or self.plain_class(t_, context_manager=True)
+            if ci_ is not None and ci_.find_method(e.attr) is None:
+                return self.init_field(ci_, t_, e.attr) or self.record_field(ci_, t_, e.attr)
+            return None
+        if isinstance(e, ast.Attribute) and isinstance(e.value, ast.Name) and e.value.id not in p.env:
+            r = self.repo.resolve_name(self.module, e.value.id)
+            if r and r[0] == "class" and self._is_enum_class(r[1]):
+                return Sym("classattr", text=f"{r[1].qualname}.{e.attr}")       # a member of one of the library's enumerations
         if isinstance(e, ast.Attribute) and isinstance(e.value, ast.Name) and p.env.get(e.value.id) is self.selfterm and self.selfterm is not None:
             if f"self.{e.attr}" in p.env:
                 return p.env[f"self.{e.attr}"]
@@ -1574,6 +1663,9 @@ class Frame:
                 if "staticmethod" in decos:
                     return [(p, Fn("func", (owner, None, None, owner.module), fn))]
                 return [(p, Fn("method", (self.cls, self.selfterm, self.selfattrs, owner.module), fn))]
+            pm = self.partial_method(self.cls, attr, self.selfterm, self.selfattrs)
+            if pm is not None:
+                return [(p, pm)]
         if attr == "__class__":
             return [(p, Sym("classof", (self.selfterm,)))]
         if self.selfattrs is None or attr not in self.selfattrs:
@@ -1589,7 +1681,28 @@ class Frame:
             self.ev(p, "read", text="self." + attr, target=self.child(attr), line=getattr(node, "lineno", 0))
         return [(p, self.child(attr))]
 
+    def partial_method(self, cls: ClassInfo, attr: str, selfterm, selfattrs) -> Optional[Term]:
+        """``name = functools.partialmethod(method, "keys")`` in a class body: the method with its leading arguments fixed
+        (constants only — anything else is not followed)."""
+        for kc in cls.mro():
+            for st in kc.node.body:
+                if isinstance(st, ast.Assign) and len(st.targets) == 1 and isinstance(st.targets[0], ast.Name) and st.targets[0].id == attr \
+                        and isinstance(st.value, ast.Call) and ast.unparse(st.value.func).split(".")[-1] == "partialmethod" and st.value.args \
+                        and isinstance(st.value.args[0], ast.Name):
+                    r = cls.find_method(st.value.args[0].id)
+                    rest, kws = st.value.args[1:], st.value.keywords
+                    if r is None or not all(isinstance(a_, ast.Constant) for a_ in rest) or not all(k_.arg and isinstance(k_.value, ast.Constant) for k_ in kws):
+                        return None
+                    owner, fn = r
+                    if any(ast.unparse(d) in ("staticmethod", "classmethod", "property") for d in fn.decorator_list):
+                        return None
+                    return Fn("method", (cls, selfterm, selfattrs, owner.module), fn, {k_.arg: Const(k_.value.value) for k_ in kws}, None,
+                              tuple(Const(a_.value) for a_ in rest))
+        return None
+
     def get_attr(self, t: Term, attr: str, p: Path, node) -> List[Tuple[Path, Term]]:
+        if isinstance(t, Fn) and attr == "__name__" and isinstance(t.node, (ast.FunctionDef, ast.AsyncFunctionDef)) and not t.bound and not t.pos:
+            return [(p, Const(t.node.name))]        # the name a ``def`` gave the function
         if isinstance(t, New):
             if attr in XOPS or attr in ("bind", "apply", "__rshift__"):
                 return [(p, Bound(t, attr))]
@@ -1602,6 +1715,9 @@ class Frame:
                 return [(p, Fn("method", (t.cls, t, t.attrs, owner.module), fn))]
             if attr in t.attrs:
                 return [(p, t.attrs[attr])]
+            pm = self.partial_method(t.cls, attr, t, t.attrs)
+            if pm is not None:
+                return [(p, pm)]
             return [(p, Opaque(f"{t.cls.name}.{attr}"))]
         if isinstance(t, Child):
             if attr in XOPS or attr in ("bind", "apply", "fingerprint", "values", "items", "__rshift__"):
@@ -1692,6 +1808,7 @@ class Frame:
     def plain_class(self, t: Term, context_manager: bool = False) -> Optional[ClassInfo]:
         """The repository class of a ``new:<Name>(…)`` term (a plain, non-node object built by the analysed code)."""
         if isinstance(t, Sym) and t.head.startswith("new:"):
+            context_manager = context_manager or t.key() in self.ctx.__dict__.get("cm_keys", ())
             # private helper classes are implementation detail to look through; calls on the public ones
             # (Request.run, Runtime.handle, Cache.get …) are the events the rules talk about.  As the manager of a ``with``
             # a public helper class is looked through as well (its __enter__/__exit__ are what the statement means) —
@@ -1731,6 +1848,18 @@ class Frame:
                     attrs = self.selfattrs if base is self.selfterm else base.attrs
                     out.extend(self.inline(owner.module, ci, fn, base, attrs,
                                            self.bind_params(fn, True, [idx], {}, owner.module), q, e))
+                return out
+        root = getattr(self.ctx, "root_cls", None)
+        if isinstance(base, Child) and base.key() == SELF.key() and root is not None and self.selfterm is not base and not isinstance(e.slice, ast.Slice):
+            # the analysed object handed to a plain function and indexed there: its own __getitem__, as through ``self[…]``
+            r = root.find_method("__getitem__")
+            if r is not None:
+                owner, fn = r
+                fr = Frame(self.ctx, root.module, root, base, None, self.depth, self.via, self.fname)
+                fr.guards = self.guards
+                fr.held = self.held
+                for q, idx in self.expr(e.slice, p):
+                    out.extend(fr.inline(owner.module, root, fn, base, None, fr.bind_params(fn, True, [idx], {}, owner.module), q, e))
                 return out
         for q, (t, idx) in [(q, ts) for q, ts in self.seq([e.value, e.slice], p)]:
             if isinstance(e.slice, ast.Slice) and isinstance(t, (Child, Coll, Seq)):
